@@ -96,7 +96,7 @@ func c20Judge(c *mon.Ctx, o *mon.Obj, groups map[string]bool, how string) {
 			c.V("contradiction|"+key, fmt.Sprintf("%s = %s but %s = %s on the same content (%s)", p.a, ra.Status, p.b, rb.Status, how), p.a, inputs(o), map[string]any{"how": how})
 		}
 	}
-	c.R.Count("distinct_nontrivial", 1)
+	c.CountDistinct(o.DER)
 }
 
 // sanToIAN copies the SAN payload into an IAN extension (replacing any).
